@@ -449,3 +449,250 @@ pub fn eval_e2e(rig: &Rig, st: &mut E2eState, case: &E2eCase, stats: &mut Stats)
         "requests": case.requests.iter().map(|r| serde_json::json!({"method": r.method, "target_kind": r.target_kind, "long_len": r.long_len, "headers": r.headers.iter().map(|(n, v)| format!("{}: {:?}", n, String::from_utf8_lossy(&v[..v.len().min(40)]))).collect::<Vec<_>>(), "repeat": r.repeat_header, "framing": r.framing, "body_len": r.body.len()})).collect::<Vec<_>>()}));
     Outcome::Pass
 }
+
+// ================================================================================================
+// Part C: hostile host replies to the agent's own calls (keeper rig)
+
+use crate::keeper::KeeperRig;
+use crate::keyhost::{Fault, Step};
+use crate::mockhost::{RespFraming, ResponseSpec};
+
+#[derive(Clone, Debug, Serialize, Deserialize, Hash)]
+pub struct HostileReply {
+    /// 0 goal state, 1 shared config, 2 instance info, 3 status document, 4 key document, 5 arbitrary text
+    pub base: u8,
+    /// 0 intact, 1 truncate, 2 delete span, 3 drop RoleInstance elements, 4 insert non-ASCII run, 5 empty
+    pub mutation: u8,
+    pub at: u16,
+    pub len: u16,
+    /// 0 as UTF-8, 1 UTF-16LE, 2 UTF-16LE with the last byte dropped (odd length)
+    pub encoding: u8,
+    pub content_type: u8,
+    pub status: u16,
+    pub pieces: Vec<usize>,
+    pub pause_us: u64,
+    pub chunked: bool,
+}
+
+#[derive(Clone, Debug, Serialize, Deserialize, Hash)]
+pub struct HostCase {
+    pub status_reply: HostileReply,
+    pub key_reply: Option<HostileReply>,
+    pub goal_state: HostileReply,
+    pub shared_config: HostileReply,
+    pub instance: HostileReply,
+}
+
+pub const CONTENT_TYPES: &[&str] = &[
+    "application/json; charset=utf-8", "text/xml; charset=utf-8", "text/xml; charset=utf-16", "application/json; charset=utf-16", "text/plain", "application/octet-stream",
+    "text/xml; charset=utf-32", "", "TEXT/XML; CHARSET=UTF-16", "application/json",
+];
+
+pub fn hostile_reply(base: impl Strategy<Value = u8>) -> impl Strategy<Value = HostileReply> {
+    (
+        base,
+        0u8..6,
+        any::<u16>(),
+        any::<u16>(),
+        prop_oneof![3 => Just(0u8), 2 => Just(1u8), 3 => Just(2u8)],
+        0u8..CONTENT_TYPES.len() as u8,
+        prop_oneof![5 => Just(200u16), 1 => Just(500u16), 1 => Just(404u16), 1 => Just(503u16)],
+        prop::collection::vec(prop_oneof![Just(1usize), Just(3), Just(7), Just(33), Just(4097), 1usize..300], 0..4),
+        prop_oneof![2 => Just(0u64), 1 => 100u64..600],
+        any::<bool>(),
+    )
+        .prop_map(|(base, mutation, at, len, encoding, content_type, status, pieces, pause_us, chunked)| HostileReply { base, mutation, at, len, encoding, content_type, status, pieces, pause_us, chunked })
+}
+
+pub fn host_strategy() -> impl Strategy<Value = HostCase> {
+    (
+        hostile_reply(prop_oneof![3 => Just(3u8), 1 => Just(5u8), 1 => Just(4u8)]),
+        prop::option::weighted(0.5, hostile_reply(prop_oneof![3 => Just(4u8), 1 => Just(5u8)])),
+        hostile_reply(prop_oneof![4 => Just(0u8), 1 => Just(5u8), 1 => Just(1u8)]),
+        hostile_reply(prop_oneof![4 => Just(1u8), 1 => Just(5u8)]),
+        hostile_reply(prop_oneof![4 => Just(2u8), 1 => Just(5u8)]),
+    )
+        .prop_map(|(status_reply, key_reply, goal_state, shared_config, instance)| HostCase { status_reply, key_reply, goal_state, shared_config, instance })
+}
+
+pub const RULE_HOST: &str = "part C: hostile host replies to the agent's own calls. For the status and key calls of the real KeyKeeper and for direct calls of WireServerClient::get_goalstate (+ get_shared_config_uri), get_shared_config and ImdsClient::get_imds_instance_info: bodies derived from the repository's canned documents or arbitrary text, mutated (truncated, span deleted, all RoleInstance elements removed, a run of 2000 multi-byte characters inserted, emptied), encoded as UTF-8 / UTF-16LE / UTF-16LE with an odd number of bytes, sent with right and wrong content types (json/xml/text/octet-stream/none, charset utf-8/utf-16/utf-32), error or success status, Content-Length or chunked, in generated write pieces (odd sizes, with pauses, so that frames split inside code units). oracle: the panic hook stays empty, no spawned task ends in a panic; afterwards the module status of the key keeper can be read (status and provisioning readers), and with a good document restored the key keeper converges again and reports RUNNING. non-trivial: an odd-length UTF-16 body, a goal state without role instances, or a non-ASCII insertion; distinct by hash of the case.";
+
+fn build_reply(r: &HostileReply) -> (ResponseSpec, bool) {
+    let base: String = match r.base % 6 {
+        0 => crate::canned::GOAL_STATE.replace("##ip##", "168.63.129.16").replace("##port##", "80"),
+        1 => crate::canned::SHARED_CONFIG.to_string(),
+        2 => crate::canned::INSTANCE.to_string(),
+        3 => r#"{"authorizationScheme":"Azure-HMAC-SHA256","keyDeliveryMethod":"http","keyGuid":null,"requiredClaimsHeaderPairs":["isRoot"],"secureChannelState":"Wireserver","version":"1.0"}"#.to_string(),
+        4 => r#"{"authorizationScheme":"Azure-HMAC-SHA256","guid":"9cf81e97-0316-4ad3-94a7-8ccbdee8ccbf","issued":"2021-05-05T 12:00:00Z","key":"4A404E635266556A586E3272357538782F413F4428472B4B6250645367566B59"}"#.to_string(),
+        _ => "Service temporarily unavailable \u{2014} r\u{e9}essayez plus tard \u{1f980}".repeat(8),
+    };
+    let chars: Vec<char> = base.chars().collect();
+    let n = chars.len().max(1);
+    let at = (r.at as usize * n) >> 16;
+    let len = ((r.len as usize * (n - at)) >> 16).max(1);
+    let mut interesting = false;
+    let text: String = match r.mutation % 6 {
+        0 => base.clone(),
+        1 => chars[..at].iter().collect(),
+        2 => chars[..at].iter().chain(chars[(at + len).min(n)..].iter()).collect(),
+        3 => {
+            let mut t = base.clone();
+            while let (Some(a), Some(b)) = (t.find("<RoleInstance>"), t.find("</RoleInstance>")) {
+                if b < a {
+                    break;
+                }
+                t.replace_range(a..b + "</RoleInstance>".len(), "");
+                interesting = true;
+            }
+            t
+        }
+        4 => {
+            interesting = true;
+            let mut t: String = chars[..at].iter().collect();
+            t.push_str(&"\u{6f22}\u{e9}\u{1f980}".repeat(700));
+            t.extend(chars[at..].iter());
+            t
+        }
+        _ => String::new(),
+    };
+    let mut bytes: Vec<u8> = match r.encoding % 3 {
+        0 => text.into_bytes(),
+        _ => text.encode_utf16().flat_map(|u| u.to_le_bytes()).collect(),
+    };
+    if r.encoding % 3 == 2 && !bytes.is_empty() {
+        bytes.pop();
+        interesting = true;
+    }
+    let ct = CONTENT_TYPES[r.content_type as usize % CONTENT_TYPES.len()];
+    let mut spec = ResponseSpec::status(r.status, &bytes);
+    if !ct.is_empty() {
+        spec = spec.with_header("Content-Type", ct);
+    }
+    if r.chunked {
+        spec.framing = RespFraming::Chunked(r.pieces.clone());
+    }
+    spec.pieces = r.pieces.clone();
+    spec.pause_us = r.pause_us;
+    (spec, interesting || (r.encoding % 3 != 0 && ct.to_lowercase().contains("utf-16")))
+}
+
+pub fn eval_host(rig: &KeeperRig, agent: &crate::keeper::Agent, case: &HostCase, stats: &mut Stats) -> Outcome {
+    use azure_proxy_agent::host_clients::{imds_client::ImdsClient, wire_server_client::WireServerClient};
+    let _ = crate::runner::take_panics();
+    let mut interesting = false;
+    let ks = agent.shared.get_key_keeper_shared_state();
+    let astat = agent.shared.get_agent_status_shared_state();
+    // ---- direct calls of the host clients ----
+    let (gs, i1) = build_reply(&case.goal_state);
+    let (sc, i2) = build_reply(&case.shared_config);
+    let (ins, i3) = build_reply(&case.instance);
+    interesting |= i1 | i2 | i3;
+    rig.host.with(|s| {
+        s.goalstate_override = Some(gs);
+        s.shared_config_override = Some(sc);
+        s.instance_override = Some(ins);
+    });
+    let ks2 = ks.clone();
+    let joined = rig.rt.block_on(async move {
+        let h = tokio::spawn(async move {
+            let ws = WireServerClient::new("168.63.129.16", 80, ks2.clone());
+            let imds = ImdsClient::new("169.254.169.254", 80, ks2.clone());
+            let mut uri = "http://168.63.129.16:80/machine/x?comp=config&type=sharedConfig&incarnation=1".to_string();
+            if let Ok(g) = ws.get_goalstate().await {
+                let _ = g.get_container_id();
+                uri = g.get_shared_config_uri();
+            }
+            if let Ok(c) = ws.get_shared_config(uri).await {
+                let _ = (c.get_role_name(), c.get_role_instance_name(), c.get_deployment_name());
+            }
+            if let Ok(i) = imds.get_imds_instance_info().await {
+                let _ = (i.get_subscription_id(), i.get_vm_id(), i.get_resource_group_name(), i.get_image_origin());
+            }
+        });
+        h.await
+    });
+    rig.host.with(|s| {
+        s.goalstate_override = None;
+        s.shared_config_override = None;
+        s.instance_override = None;
+    });
+    let panics = crate::runner::take_panics();
+    if let Some(p) = panics.first() {
+        return Outcome::fail(crate::runner::panic_signature(p), format!("host-client call panicked at {}: {}", crate::runner::short_loc(&p.location), p.message.chars().take(300).collect::<String>()));
+    }
+    if let Err(e) = joined {
+        if e.is_panic() {
+            return Outcome::fail("panic:unrecorded", "a host-client task ended in a panic".to_string());
+        }
+    }
+    // ---- the key keeper's own status / key calls ----
+    let (st, i4) = build_reply(&case.status_reply);
+    interesting |= i4;
+    let body = String::from_utf8_lossy(&st.body).to_string();
+    let ct = st.headers.iter().find(|(n, _)| n == "Content-Type").map(|(_, v)| String::from_utf8_lossy(v).to_string()).unwrap_or_default();
+    // (text faults only carry text; byte-exact bodies go through the override responses above)
+    let fault = if st.status == 200 { Fault::Garbage(body, ct) } else { Fault::Status(st.status, body, ct) };
+    let mut acquire_faults = vec![];
+    if let Some(k) = &case.key_reply {
+        let (ksp, i5) = build_reply(k);
+        interesting |= i5;
+        let b = String::from_utf8_lossy(&ksp.body).to_string();
+        let c = ksp.headers.iter().find(|(n, _)| n == "Content-Type").map(|(_, v)| String::from_utf8_lossy(v).to_string()).unwrap_or_default();
+        acquire_faults.push(if ksp.status == 200 { Fault::Garbage(b, c) } else { Fault::Status(ksp.status, b, c) });
+    }
+    let timeout = Duration::from_secs(20);
+    let mut inconclusive = None;
+    if let Err(e) = rig.run_step(Step { keep_doc: true, status_fault: Some(fault), ..Default::default() }, 3, timeout) {
+        inconclusive = Some(e);
+    }
+    // readers of the module status (status task, provisioning query)
+    let prov = agent.shared.get_provision_shared_state();
+    let (a2, k2) = (astat.clone(), ks.clone());
+    let read = rig.rt.block_on(async move {
+        tokio::spawn(async move {
+            let s = a2.get_module_status(azure_proxy_agent::shared_state::agent_status_wrapper::AgentStatusModule::KeyKeeper).await;
+            let p = azure_proxy_agent::provision::get_provision_state_internal(prov, a2.clone(), k2).await;
+            (s.message.len(), p.error_message.len())
+        })
+        .await
+    });
+    if let Err(e) = &read {
+        if e.is_panic() {
+            let ps = crate::runner::take_panics();
+            let sig = ps.first().map(crate::runner::panic_signature).unwrap_or_else(|| "panic:unrecorded".into());
+            return Outcome::fail(sig, "reading the key keeper's module status panicked after a hostile status reply".to_string());
+        }
+    }
+    // rotation with a hostile key reply, then recovery
+    if let Err(e) = rig.run_step(Step { keep_doc: true, rotate: true, acquire_faults, ..Default::default() }, 2, timeout) {
+        inconclusive = Some(e);
+    }
+    let panics = crate::runner::take_panics();
+    if let Some(p) = panics.first() {
+        return Outcome::fail(crate::runner::panic_signature(p), format!("panic in thread {} at {}: {}", p.thread, crate::runner::short_loc(&p.location), p.message.chars().take(300).collect::<String>()));
+    }
+    let state = rig.rt.block_on(async { astat.get_module_status(azure_proxy_agent::shared_state::agent_status_wrapper::AgentStatusModule::KeyKeeper).await });
+    if format!("{:?}", state.status) != "RUNNING" && inconclusive.is_none() {
+        return Outcome::fail("robustness:key-keeper-not-running-after-hostile-replies", format!("{:?}", state.status));
+    }
+    let latched = rig.host.with(|s| s.latched.clone());
+    let guid = rig.rt.block_on(async { ks.get_current_key_guid().await.unwrap_or(None) });
+    if inconclusive.is_none() && guid != latched {
+        return Outcome::fail("robustness:key-keeper-did-not-recover-after-hostile-replies", format!("agent key {:?}, host latched {:?}", guid, latched));
+    }
+    stats.class(&format!("status-reply:encoding{}", case.status_reply.encoding % 3));
+    stats.class(&format!("goal-state:mutation{}", case.goal_state.mutation % 6));
+    if case.goal_state.encoding % 3 == 2 || case.shared_config.encoding % 3 == 2 || case.instance.encoding % 3 == 2 {
+        stats.class("reply:odd-length-utf16");
+    }
+    if interesting {
+        stats.nontrivial_hash(h64(case));
+    }
+    stats.sample(|| serde_json::to_value(case).unwrap());
+    if let Some(e) = inconclusive {
+        if !stats.is_frozen() {
+            stats.inconclusive.push(e);
+        }
+    }
+    Outcome::Pass
+}
